@@ -4,7 +4,7 @@
   shared_joint    a shared source = the joint covariance with the shared matrix in every block between sharing members (cost and total_cov_mat in closed form)
   sub_blocks      after multi.do_fit every member reports name-indexed sub-blocks (values, errors, cov, cor, asymmetric errors)
   fix_release     fix / release on the multi-fit mirrored into exactly the members that have the name"""
-import itertools, sys
+import itertools, math, sys
 from common import parse, Runner, imp
 
 args = parse()
@@ -365,6 +365,53 @@ def fix(inp):
     multi.do_fit()
     if multi.parameter_values[0] != 0.9 or any(dict(zip(f.parameter_names, f.parameter_values)).get(multi.parameter_names[0], 0.9) != 0.9 for f in members):
         return {"got": list(multi.parameter_values), "expected": 0.9, "witness_class": "fix:moved-by-fit"}
+
+
+def gen_one_node(tier, seed):
+    for layout in (["m_abc", "m_ca", "m_ab"], ["m_ab", "m_e", "m_bd"], ["m_ab", "hist", "unbinned"]):
+        for how in ("member.set_all_parameter_values", "member.set_parameter_values", "multi.set_parameter_values", "member.do_fit"):
+            for who in range(len(layout)):
+                if how.startswith("multi") and who:
+                    continue
+                yield {"layout": layout, "how": how, "member": who}
+
+
+@R.oracle("a_shared_parameter_is_one_parameter", gen_one_node, obligation="MultiFit._init_nexus")
+def one_node(inp):
+    """fits in a multi-fit that use the same parameter name use ONE parameter: a value given to it through any member (or found by a member's own fit) is the
+    value the multi-fit and every other member see, and the costs are evaluated there"""
+    members = [member(s, k) for k, s in enumerate(inp["layout"])]
+    multi = MultiFit(members)
+    f = members[inp["member"]]
+    how = inp["how"]
+    if how == "member.set_all_parameter_values":
+        new = [0.37 + 0.11 * q for q in range(len(f.parameter_names))]
+        f.set_all_parameter_values(new)
+        want = dict(zip(f.parameter_names, new))
+    elif how == "member.set_parameter_values":
+        want = {f.parameter_names[-1]: 0.61}
+        f.set_parameter_values(**want)
+    elif how == "multi.set_parameter_values":
+        want = {n_: 0.41 + 0.07 * q for q, n_ in enumerate(multi.parameter_names)}
+        multi.set_parameter_values(**want)
+    else:
+        f.do_fit()
+        want = dict(zip(f.parameter_names, f.parameter_values))
+    views = [("multi", multi)] + [("member%d" % k, g) for k, g in enumerate(members)]
+    for label, g in views:
+        have = dict(zip(g.parameter_names, g.parameter_values))
+        for n_, v_ in want.items():
+            if n_ in have and not math.isclose(have[n_], v_, rel_tol=1e-12, abs_tol=1e-12):
+                return {"got": {label: have}, "expected": want, "witness_class": f"one-node:{how}:{label}-does-not-see-the-value"}
+    # and the cost is evaluated at these values: the multi cost equals the sum of the member costs computed by fresh, stand-alone copies at the same point
+    total = 0.0
+    for k, s in enumerate(inp["layout"]):
+        g = member(s, k)
+        now = dict(zip(multi.parameter_names, multi.parameter_values))
+        g.set_all_parameter_values([now[n_] for n_ in g.parameter_names])
+        total += float(g.cost_function_value)
+    if not math.isclose(float(multi.cost_function_value), total, rel_tol=1e-9, abs_tol=1e-9):
+        return {"got": float(multi.cost_function_value), "expected": total, "witness_class": f"one-node:{how}:cost-not-at-the-values"}
 
 
 sys.exit(R.main())
